@@ -238,6 +238,10 @@ class SimConn:
         return cur
 
     def _plain(self, stmt, params=()):
+        if ACTIVE is self.sim and self.sim.current is None and self.pid != self.sim.harness_proc.pid \
+                and not self.closed and self.task is None:
+            self.sim.violations.append(('seam/connection-used-across-processes',
+                                        'connection opened by pid %s used by pid %s' % (self.pid, self.sim.harness_proc.pid)))
         before = self.real.in_transaction
         cur = self.real.execute(stmt, params)
         if before and not self.real.in_transaction and ACTIVE is self.sim:
